@@ -18,6 +18,9 @@ func init() {
 		// lower bound of the window: the header is rendered for each request when it is forwarded, never remembered from an earlier one
 		ruleDef{"C07.R5", func(r *R) { injectedValueProvenance(r, "C07.R5") }},
 		ruleDef{"C07.R6", func(r *R) { lockNotReentered(r, "C07.R6", false) }},
+		// upper bound of the window: a request's own HEADERS frame is recorded before the handler that serves it can
+		// be started (shared with C03)
+		ruleDef{"C03.R1", c03r1},
 	)
 }
 
